@@ -1,12 +1,20 @@
 """C04 -- replacement changes exactly the matched atoms and nothing else.
 
-Deductive part built so far:
+Deductive part:
   * match selection: with a replacement fraction f the replaced matches are round(f*M) distinct members of the found list (all M when
     f >= 1), and the reported count is their number -- block contract on the `if replace_fraction < 1.0` statement and the return;
-  * deletion set = matched atoms minus retained atoms, each atom at most once: C07's block contract and lemma (same statements);
-  * per-atom data of survivors / order: consequence of the contracts of Atoms.__delitem__ (C10) and Atoms.extend (C11).
-Whole-function composition over the match loop (atom count N - sum|D_k| + m|A|, bystanders unchanged) and the frame condition on the
-three inputs are BOUNDED on the real code (bounded/C04.py).
+  * frame of the whole replacement (prove_frame): the statements from `new_structure = structure.copy()` to the bulk delete are executed
+    for ANY number of matches (match loop cut at an invariant) against the CONTRACTS of Atoms.extend_types / extend / __delitem__ proved in
+    C11 / C10 (modular: callee preconditions are obligations here, callee effects are their proved postconditions):
+      - the removed atoms are exactly the atoms of the replaced matches at search positions not common to both patterns (all matched atoms
+        with replace_all), only atoms of matches are removed;
+      - every atom that is not removed -- bystanders and atoms common to both patterns -- keeps position, charge and group and its order;
+        atoms outside all matches also keep their type id, and old type ids keep their table entries (tables = old ++ pattern's);
+      - the input structure and the replacement pattern objects are not modified; the loop does not touch tables or cell (identity frame);
+    requires: non-empty replacement pattern, matches list distinct existing atoms (C01), find_unchanged_atom_pairs is a partial injection;
+  * overlap handling: C07's block contract and lemma (same statements).
+The inserted atoms (which, where: C05 / C11) and the resulting atom / per-element COUNTS, and the empty-replacement branch, are BOUNDED on the
+real code (bounded/C04.py).
 """
 import ast
 import z3
@@ -16,10 +24,10 @@ from pyvc import models_py
 from pyvc.models_py import ObjS, to_obj
 
 META = {
-    'level': 'other',
-    'explanation': "selection arithmetic proved as a block contract; the composition over the match loop is carried by the callee "
-                   "contracts of C07/C10/C11 but not yet assembled into one whole-function proof, so the atom-count / bystander / "
-                   "frame clauses are bounded",
+    'level': 'proof',
+    'explanation': "selection arithmetic proved as a block contract; the frame of the replacement (exact deletion set, bystanders and retained atoms "
+                   "unchanged, inputs unmodified) proved for any number of matches against the contracts of extend / __delitem__ (C11 / C10); the "
+                   "count of inserted atoms and the empty-replacement branch are bounded",
     'trusted_base': ["python: random.sample(pop, k) returns k distinct members of pop (ValueError if k > len)", "round(): nearest, ties to even",
                      "z3 soundness", "pyvc symbolic interpreter"],
 }
@@ -113,6 +121,277 @@ def build(S):
             S.add_canary(I, "replace/selection/canary#%d" % i, [h for h in p.pc if not z3.is_quantifier(h)])
         S.add_interp_obligations(I)
     S.guarded('selection block', run)
+    prove_frame(S)
     S.clause('number of replaced matches = round(f*M), reported count equals it, only found matches, none twice', 'PROVED (block contract)')
     S.clause('deletion set / overlap', 'PROVED in C07 (same statements)')
-    S.clause('atom count, per-element counts, bystanders unchanged, retained atoms in place, inputs unmodified', 'BOUNDED (bounded/C04.py)')
+    S.clause('removed atoms = search-only atoms of the replaced matches; bystanders and retained atoms keep position, charge, group (bystanders also type); inputs unmodified', 'PROVED (match loop under invariant, modular over the contracts of extend / __delitem__)')
+    S.clause('atom count and per-element counts (inserted atoms), empty replacement', 'BOUNDED (bounded/C04.py)')
+
+
+# ------------------------------------------------------------------------------------------------
+# frame of the whole replacement (non-empty replacement pattern): statements from `new_structure = structure.copy()` to the bulk delete,
+# for any number of matches, checked against the CONTRACTS of extend_types / extend / __delitem__ (modular)
+from pyvc.values import NestedSeq, SymSet, Ref, RowVal
+from pyvc.interp import FuncSpec, LoopSpec
+from pyvc import models_np, models_ext, models_lin
+from pyvc.models_np import mem_of
+from contracts import atoms_model as AM
+from contracts import atoms_contracts as AC
+REAL = z3.RealSort()
+
+
+def prove_frame(S):
+    S.guarded('frame of the replacement', lambda: _frame(S))
+
+
+def _frame(S):
+    I = S.interp()
+    I.allow_merge = False
+    models_py.install(I)
+    models_np.install(I)
+    models_ext.install(I)
+    st = {}
+    mod = I.module(REL)
+    fn = mod.find(FN)
+    # ---- the block: from `new_structure = structure.copy()` up to and including `del(new_structure[list(to_delete)])`
+    body = fn.body
+    i0 = [i for i, s in enumerate(body) if isinstance(s, ast.Assign) and ast.unparse(s) == 'new_structure = structure.copy()']
+    i1 = [i for i, s in enumerate(body) if isinstance(s, ast.Delete)]
+    if len(i0) != 1 or len(i1) != 1 or i1[0] <= i0[0]:
+        raise OutOfSubset("`new_structure = structure.copy()` ... `del(new_structure[list(to_delete)])` not found (contract no longer applies)")
+    block = body[i0[0]:i1[0] + 1]
+    A = 'mofun/atoms.py'
+    I.models['%s:Atoms.extend_types' % A] = AC.extend_types_contract(I, st)
+    I.models['%s:Atoms.extend' % A] = AC.extend_contract(I, st)
+    I.models['%s:Atoms.__delitem__' % A] = AC.delitem_contract(I, st)
+
+    def m_copy(ctx, args, kwargs):
+        (ref,) = args
+        I.reg.assumptions_used.add("A4: copy.deepcopy returns a structurally equal object sharing nothing mutable with its source")
+        return I.state.alloc(ref.cls, dict(I.state.heap[ref.oid]))
+    I.models['%s:Atoms.copy' % A] = m_copy
+
+    def same_rows(x, base):
+        if not isinstance(x, SymSeq):
+            raise OutOfSubset("row-wise numpy operation on %r" % (x,))
+        I.reg.assumptions_used.add("row-wise numpy / scipy operations (Rotation.apply, +, matmul with a 3x3 matrix, % 1.0) keep the number of rows")
+        return AC.fresh_like_seq(I, x, base, x.length)
+
+    def m_apply(ctx, recv, args, kwargs, f):
+        if isinstance(recv, Opaque) and len(args) == 1:
+            return same_rows(args[0], 'rotated')
+        return NotImplemented
+    I.models['method.apply'] = m_apply
+
+    def m_translate(ctx, args, kwargs):
+        me, delta = args
+        hs = I.state.heap[me.oid]
+        hs['positions'] = same_rows(hs['positions'], 'translated')
+        return None
+    I.models['%s:Atoms.translate' % A] = m_translate
+    I.models['numpy.linalg.inv'] = lambda ctx, args, kwargs: Opaque(z3.Const(I.reg.fresh('cell_inv'), ObjS), 'inv')
+
+    def m_matmul(ctx, args, kwargs):
+        return same_rows(args[0], 'matmul')
+    I.models['numpy.matmul'] = m_matmul
+    prev_binop = I.models.get('seq.binop')
+
+    def m_seq_binop(ctx, op, a, b):
+        if op == 'Mod' and isinstance(a, SymSeq) and a.width == 3:
+            return same_rows(a, 'mod1')
+        if prev_binop:
+            return prev_binop(ctx, op, a, b)
+        raise OutOfSubset("binary %s on arrays" % op)
+    I.models['seq.binop'] = m_seq_binop
+
+    def m_set(ctx, args, kwargs):
+        if args and isinstance(args[0], SymSeq) and args[0].width is None:
+            return SymSet(mem_of(I, args[0]), INT, 'set(%s)' % args[0].name)
+        return I.lib.bi_set(ctx, args, kwargs)
+    I.models['set'] = m_set
+
+    def m_isdisjoint(ctx, a, b):
+        pa, pb = I.lib.set_pred(a), I.lib.set_pred(b)
+        x = z3.Int(I.reg.fresh('x'))
+        return Sym(z3.ForAll([x], z3.Not(z3.And(pa(x), pb(x)))))
+    I.models['set.isdisjoint'] = m_isdisjoint
+
+    def m_difference(ctx, recv, args, kwargs, f):
+        if isinstance(recv, SymSet) and len(args) == 1:
+            return I.lib.set_op('Sub', recv, m_set(ctx, [args[0]], {}))
+        return NotImplemented
+    I.models['method.difference'] = m_difference
+    prev_list = I.models.get('list.fallback')
+
+    def m_list(ctx, v):
+        if isinstance(v, SymSet):
+            dl = I.fresh_seq('items_of_set', 'int')
+            mem = mem_of(I, dl)
+            x = z3.Int(I.reg.fresh('x'))
+            I.assume(z3.ForAll([x], mem(x) == v.pred(x), patterns=[mem(x)]))
+            I.assume(AM.pairwise_distinct(dl, I.reg.fresh('ld')))
+            I.reg.assumptions_used.add("list(s) of a set: every member exactly once, nothing else")
+            st['deleted_list'] = dl
+            return dl
+        return prev_list(ctx, v) if prev_list else None
+    I.models['list.fallback'] = m_list
+
+    # ---- ghost: atoms that belong to some selected match
+    inM = z3.Function('in_some_match', INT, z3.BoolSort())
+
+    def inv(view, k):
+        ns = view['new_structure']
+        hs = I.state.heap[ns.oid]
+        D = view['to_delete']
+        old = st['old']
+        N = old['positions'].length
+        s = z3.Int('fs')
+        x = z3.Int('fx')
+        keep = []
+        for fld in ('positions', 'charges', 'groups'):
+            keep += [z3.Select(cn, s) == z3.Select(co, s) for cn, co in zip(hs[fld].cols, old[fld].cols)]
+        out = [('sizes-consistent', AM.wf_sizes(hs)),
+               ('no-atom-lost-so-far', hs['positions'].length >= N),
+               ('original-atoms-keep-position-charge-group', z3.ForAll([s], z3.Implies(z3.And(s >= 0, s < N), z3.And(*keep)),
+                                                                          patterns=[z3.Select(hs['positions'].cols[0], s)])),
+               ('atoms-outside-all-matches-keep-their-type', z3.ForAll([s], z3.Implies(z3.And(s >= 0, s < N, z3.Not(inM(s))),
+                    z3.Select(hs['atom_types'].cols[0], s) == z3.Select(old['atom_types'].cols[0], s)), patterns=[z3.Select(hs['atom_types'].cols[0], s)])),
+               ('only-atoms-of-matches-are-marked-for-deletion', z3.ForAll([x], z3.Implies(D.pred(x), z3.And(inM(x), x >= 0, x < N)), patterns=[D.pred(x)]) if _is_app(D, x) else
+                    z3.ForAll([x], z3.Implies(D.pred(x), z3.And(inM(x), x >= 0, x < N))))]
+        for kk, _ in AM.KINDS:
+            out.append(('%s-refer-to-existing-atoms' % AM.PLURAL[kk], AM.all_in_range(hs[AM.PLURAL[kk]], 0, hs['positions'].length, 'fr_' + kk)))
+        out += deletion_set_is_exact(D, k if z3.is_expr(k) else z3.IntVal(k))
+        return out
+
+    def deletion_set_is_exact(D, k):
+        """to_delete after k matches = the atoms of those matches at search positions that are not common to both patterns (all positions
+        with replace_all)."""
+        MI, NS, removable = st['MI'], st['NS'], st['removable']
+        x, j, a = z3.Int('dx'), z3.Int('dj'), z3.Int('da')
+        ent = z3.Select(z3.Select(MI, j), a)
+        return [('marked-atoms-are-removable-atoms-of-earlier-matches',
+                 z3.ForAll([x], z3.Implies(D.pred(x), z3.Exists([j, a], z3.And(j >= 0, j < k, a >= 0, a < NS, ent == x, removable(a)))))),
+                ('removable-atoms-of-earlier-matches-are-marked',
+                 z3.ForAll([j, a], z3.Implies(z3.And(j >= 0, j < k, a >= 0, a < NS, removable(a)), D.pred(ent)), patterns=[ent]))]
+
+    def _is_app(D, x):
+        try:
+            e = D.pred(x)
+            return z3.is_app(e) and e.decl().kind() == z3.Z3_OP_UNINTERPRETED
+        except Exception:
+            return False
+
+    def empty_set(I_, v):
+        if isinstance(v, (set, frozenset)) and not v:
+            return SymSet(lambda x: z3.BoolVal(False), INT, 'to_delete')
+        return v
+    KEEP = AC.TABLES + ['cell']
+    I.funcspecs['%s:%s' % (REL, FN)] = FuncSpec(loops=[
+        LoopSpec('(m_i, atom_positions) in enumerate(match_positions)', inv=inv, extra_modifies=('new_structure',), convert={'to_delete': empty_set},
+                 keep_attrs={'new_structure': KEEP})])
+
+    def thunk():
+        st.clear()
+        structure, f = AM.make_atoms(I, 'structure')
+        pattern, fp = AM.make_atoms(I, 'replace_pattern', cell=False)
+        N, NR = f['positions'].length, fp['positions'].length
+        I.assume(NR >= 1)                                   # this contract: non-empty replacement pattern
+        I.assume(AM.wf_sizes(f))
+        I.assume(AM.wf_sizes(fp))
+        for k, _ in AM.KINDS:
+            I.assume(AM.all_in_range(f[AM.PLURAL[k]], 0, N, 'rq_s_' + k))
+            I.assume(AM.all_in_range(fp[AM.PLURAL[k]], 0, NR, 'rq_p_' + k))
+        st['old'] = dict(f)
+        st['pat'] = dict(fp)
+        # the selected matches: M index tuples of length NS (contract of find_pattern_in_structure, C01 (1) and (4): valid, distinct atoms)
+        M, NS = z3.Int('n_matches'), z3.Int('n_search_atoms')
+        I.assume(M >= 0)
+        I.assume(NS >= 1)
+        MI = z3.Array('match_indices', INT, z3.ArraySort(INT, INT))
+        match_indices = NestedSeq(M, [MI], NS, None, 'tuple', 'match_indices')
+        j, a, b = z3.Int('mj'), z3.Int('ma'), z3.Int('mb')
+        ent = lambda jj, aa: z3.Select(z3.Select(MI, jj), aa)
+        I.assume(z3.ForAll([j, a], z3.Implies(z3.And(j >= 0, j < M, a >= 0, a < NS), z3.And(ent(j, a) >= 0, ent(j, a) < N, inM(ent(j, a)))), patterns=[ent(j, a)]))
+        I.assume(z3.ForAll([j, a, b], z3.Implies(z3.And(j >= 0, j < M, a >= 0, a < b, b < NS), ent(j, a) != ent(j, b)), patterns=[z3.MultiPattern(ent(j, a), ent(j, b))]))
+        I.reg.assumptions_used.add("contract of find_pattern_in_structure (C01 clauses 1 and 4, bounded there): every match lists distinct existing atoms of the structure")
+        MP = [z3.Array('match_pos_%s' % c, INT, z3.ArraySort(INT, REAL)) for c in 'xyz']
+        match_positions = NestedSeq(M, MP, NS, 3, 'ndarray', 'match_positions')
+        quats = SymSeq(M, [z3.Array('quats', INT, ObjS)], None, 'list', 'quats')
+        quats.shape = ('o', ObjS)
+        # replace-pattern atom -> search-pattern atom for atoms common to both (contract of find_unchanged_atom_pairs: a partial injection)
+        L = z3.Int('n_common')
+        I.assume(L >= 0)
+        ck = AM.seq('common_replace_idx', L, [INT], kind='list')
+        cv = AM.seq('common_search_idx', L, [INT], kind='list')
+        I.assume(AM.pairwise_distinct(ck, 'ck'))
+        I.assume(AM.pairwise_distinct(cv, 'cv'))
+        I.assume(AM.all_in_range(ck, 0, NR, 'ckr'))
+        I.assume(AM.all_in_range(cv, 0, NS, 'cvr'))
+        I.reg.assumptions_used.add("requires: find_unchanged_atom_pairs(replace, search) is a partial injection (no two coincident same-element atoms in a pattern)")
+        r2s = models_ext.input_map(I, ck, cv)
+        replace_all = z3.Bool('replace_all')
+        mem_cv = mem_of(I, cv)
+        st.update(MI=MI, NS=NS, M=M, removable=lambda a_: z3.Or(replace_all, z3.Not(mem_cv(a_))))
+        ignore = z3.Bool('ignore_overlap')
+        env = {'structure': structure, 'replace_pattern': pattern, 'match_indices': match_indices, 'match_positions': match_positions, 'quats': quats,
+               'replace2search_pattern_map': r2s, 'replace_all': Sym(replace_all), 'ignore_atoms_should_not_be_deleted_twice': Sym(ignore), 'verbose': False}
+        ctx = I.block_ctx(REL, FN, env)
+        ctx.exec_block(block)
+        res = ctx.lookup('new_structure')
+        return structure, pattern, res, ctx.lookup('to_delete'), dict(MI=MI, NS=NS, M=M, removable=st['removable'], structure0=dict(f), pattern0=dict(fp))
+
+    paths = I.explore(thunk, max_paths=200)
+    nret = 0
+    for pi, p in enumerate(paths):
+        if p.outcome == 'loopend':
+            continue
+        if p.outcome == 'raise':
+            if getattr(p.value, 'cls', None) == 'AtomsShouldNotBeDeletedTwice':
+                continue        # the dedicated overlap error (C07): no structure is handed back
+            raise OutOfSubset("the replacement block raises %r" % (p.value,))
+        nret += 1
+        structure, pattern, res, D, gh = p.value
+        st.update(gh)
+        heap = p.state.heap
+        R = heap[res.oid]
+        d = getattr(R['positions'], 'deleted_from', None)
+        if d is None:
+            raise OutOfSubset("the result is not produced by the bulk delete")
+        base, idx, src, dst = d
+        N = heap[structure.oid]['positions'].length
+        O = heap[structure.oid]
+        s, x = z3.Int('qs'), z3.Int('qx')
+        tag = "replace/frame"
+        S.add(I, "%s/input-structure-and-replacement-pattern-not-modified#%d" % (tag, pi), p.pc,
+              z3.BoolVal(all(O[k] is v for k, v in gh['structure0'].items()) and all(heap[pattern.oid][k] is v for k, v in gh['pattern0'].items())), kind='frame',
+              clause='the input structure and the replacement pattern are left unmodified (the block works on copies)')
+        surv = lambda s_: z3.And(dst(s_) >= 0, dst(s_) < R['positions'].length,
+                                 *[z3.Select(cn, dst(s_)) == z3.Select(co, s_) for fld in ('positions', 'charges', 'groups') for cn, co in zip(R[fld].cols, O[fld].cols)])
+        S.add(I, "%s/only-atoms-of-selected-matches-are-removed#%d" % (tag, pi), p.pc,
+              z3.ForAll([x], z3.Implies(D.pred(x), z3.And(inM(x), x >= 0, x < N))), clause='only atoms of replaced matches are removed')
+        for lbl, fml in deletion_set_is_exact(D, st['M']):
+            S.add(I, "%s/deletion-set/%s#%d" % (tag, lbl, pi), p.pc, fml,
+                  clause='removed atoms = atoms of the replaced matches that occur only in the search pattern (all matched atoms with replace_all)')
+        S.add(I, "%s/every-atom-not-removed-keeps-position-charge-group#%d" % (tag, pi), p.pc,
+              z3.ForAll([s], z3.Implies(z3.And(s >= 0, s < N, z3.Not(D.pred(s))), surv(s))),
+              clause='bystanders and atoms common to both patterns stay where they were, with charge and group')
+        S.add(I, "%s/atoms-outside-the-matches-survive-with-their-type#%d" % (tag, pi), p.pc,
+              z3.ForAll([s], z3.Implies(z3.And(s >= 0, s < N, z3.Not(inM(s))), z3.And(z3.Not(D.pred(s)), surv(s),
+                        z3.Select(R['atom_types'].cols[0], dst(s)) == z3.Select(O['atom_types'].cols[0], s)))),
+              clause='every atom outside the replaced matches keeps position, type, charge and group')
+        # type ids keep their meaning: the tables are the old tables followed by the pattern's
+        tabs = []
+        for t in AC.TABLES:
+            ap = getattr(R[t], 'appended', None)
+            tabs.append(ap is not None and ap[0] is O[t])
+        S.add(I, "%s/type-tables-are-old-tables-followed-by-the-patterns#%d" % (tag, pi), p.pc, z3.BoolVal(all(tabs)),
+              clause='type label, element, mass of bystanders: old type ids resolve as before')
+        S.add_canary(I, "%s/canary#%d" % (tag, pi), [h for h in p.pc if not z3.is_quantifier(h)])
+        if nret <= 2:
+            S.add_probe(I, "%s/probe/hypotheses-consistent#%d" % (tag, pi), p.pc)
+    if nret == 0:
+        raise OutOfSubset("no normally returning path of the replacement block")
+    S.add_interp_obligations(I)
+    spec = I.funcspecs['%s:%s' % (REL, FN)]
+    if len(spec.seen_loops) != 1:
+        raise OutOfSubset("the match loop must be cut at its invariant")
